@@ -3,7 +3,7 @@ from functools import reduce
 import pandas as pd
 
 from elexmodel.handlers import s3
-from elexmodel.utils.constants import VALID_AGGREGATES_MAPPING
+from elexmodel.utils.constants import AGGREGATE_ORDER, VALID_AGGREGATES_MAPPING
 from elexmodel.utils.file_utils import S3_FILE_PATH, TARGET_BUCKET, convert_df_to_csv
 
 
@@ -95,7 +95,8 @@ class ModelResultsHandler:
         Create final data frames of results
         """
         for agg in self.aggregates:
-            merge_on = ["postal_code", "reporting", agg]
+            # every key column of the aggregate (ie. also district in a district election), not just the aggregate itself
+            merge_on = [col for col in AGGREGATE_ORDER if col in self.estimates[agg][0].columns] + ["reporting"]
             # joins together dfs of the same level of aggregation (different estimands)
             agg_df = reduce(lambda x, y: pd.merge(x, y, how="inner", on=merge_on), self.estimates[agg])
             self.final_results[VALID_AGGREGATES_MAPPING.get(agg)] = agg_df
